@@ -665,6 +665,20 @@ class Sym:
                 return Poly.atom(f"abs({p.key()})")
             if fn.id in TRANSPARENT_CALLS and len(e.args) == 1:
                 return self.ev(e.args[0], at, depth + 1)
+            if fn.id in ("sorted", "sum", "min", "max", "any", "all", "set", "frozenset", "list", "tuple") and len(e.args) == 1 and not self.rd.reaching(fn.id, at if at is not None else self.cfg.entry.id):
+                # an iterating builtin does not care whether its argument was first copied into a list / tuple: f(list(X)) is f(X)
+                k_ = self.ev(e.args[0], at, depth + 1).key()
+                for w_ in ("list(", "tuple("):
+                    if k_.startswith(w_) and k_.endswith(")"):
+                        inner, depth_, ok_ = k_[len(w_):-1], 0, True
+                        for ch in inner:
+                            depth_ += ch == "("
+                            depth_ -= ch == ")"
+                            if depth_ < 0:
+                                ok_ = False
+                                break
+                        if ok_ and depth_ == 0 and "," not in _top_level(inner):
+                            return Poly.atom(f"{fn.id}({inner})") if fn.id not in ("list", "tuple") or w_ == fn.id + "(" else Poly.atom(f"{fn.id}({inner})")
         if isinstance(fn, ast.Attribute) and fn.attr == "format" and isinstance(fn.value, ast.Constant) and isinstance(fn.value.value, str) and not any(isinstance(a, ast.Starred) for a in e.args) \
                 and not any(k.arg is None for k in e.keywords):
             import string
@@ -891,6 +905,19 @@ def _integer_valued(p: "Poly") -> bool:
     if any(c.denominator != 1 for c in p.t.values()):
         return False
     return all(INT_ATOM.search(a) is not None for a in atoms)
+
+
+def _top_level(s: str) -> str:
+    """s with everything inside brackets removed (to look for top-level commas)."""
+    out, d = [], 0
+    for ch in s:
+        if ch in "([{":
+            d += 1
+        elif ch in ")]}":
+            d -= 1
+        elif d == 0:
+            out.append(ch)
+    return "".join(out)
 
 
 def _paren(s: str) -> str:
